@@ -7,6 +7,18 @@ VERIF = os.path.dirname(os.path.dirname(os.path.abspath(__file__)))
 props = [json.loads(l) for l in open(os.path.join(VERIF, "properties.jsonl"))]
 
 CLAIMED = {
+    "C14": dict(
+        text="The store contract is the Coq model Store.v; machine-checked theorems about it for all operation sequences (Create iff no live value, Update iff "
+             "latest revision, failed writes change nothing, revisions strictly increase, Get returns the latest live value, a watch delivers every later change "
+             "exactly once and in revision order). The tie is the property itself: on every run the library's real adapter (verif hook) is driven against an "
+             "embedded nats-server with random operation sequences and every outcome is replayed on the extracted Store.v and on the Go reference store used by "
+             "the simulator; goroutine counts are checked for repeated Updates() calls and for Stop with undelivered entries.",
+        design_ref="5.14",
+        note="Trusted: Coq kernel, extraction, natsdiff harness (written by a sub-agent, reviewed), nats-server/nats.go as a black box. The watch theorem "
+             "excludes the server-side conflation of history-1 buckets (environment step Drop); paced runs assume the consumer keeps up, unpaced runs "
+             "(thorough) check every loss is a legal conflation. No axioms.",
+        technique="Coq proofs about the reference store model + three-way differential execution (real adapter on embedded NATS / Go reference store / extracted Store.v)",
+    ),
     "C17": dict(
         text="Machine-checked proofs (Coq): CalculateBackoff regenerated from retry.go over exact rationals stays within +-Jitter of "
              "min(MaxBackoff, Initial*Multiplier^n) and is never negative for every attempt number, every random draw and every non-negative configuration; "
